@@ -76,7 +76,7 @@ func init() {
 		ID:        "C17",
 		Technique: "symbolic path enumeration with interval refinement (Add); finite-ordering abstract evaluation (Compare, overflowPanic, DurationIsNegative)",
 		DesignRef: "DESIGN.md 3.13, 4 C17",
-		LevelText: "Every path of timepb.Add is enumerated symbolically for all valid inputs (t.Nanos in [0,1e9), d.Nanos in (-1e9,1e9), seconds unconstrained): each return is exact (t+d with carry k in {-1,0,1}), normalised (Nanos interval inside [0,1e9)), fresh (address of a local), and preceded by overflowPanic(t,&result,DurationIsNegative(d)) after the last write. Compare/DurationIsNegative/overflowPanic touch their arguments only through comparisons (checked), so evaluation on one representative per abstract ordering is exhaustive: Compare is lexicographic, antisymmetric, total; overflowPanic panics iff the result moved against the sign of d. Not decided: agreement with AddStd (time.Time arithmetic) and wrap detection for inputs outside the valid ranges.",
+		LevelText: "Every path of timepb.Add is enumerated symbolically for all valid inputs (t.Nanos in [0,1e9), d.Nanos in (-1e9,1e9), seconds unconstrained): each return is exact (t+d with carry k in {-1,0,1}), normalised (Nanos interval inside [0,1e9)), fresh (address of a local), and preceded by overflowPanic(t,&result,DurationIsNegative(d)) after the last write. Compare/DurationIsNegative/overflowPanic touch their arguments only through comparisons (checked), so evaluation on one representative per abstract ordering is exhaustive: Compare is lexicographic, antisymmetric, total; overflowPanic panics iff the result moved against the sign of d. AddStd: every non-nil return is a fresh value and the computed one is returned only after overflowPanic(t, result, d < 0). Not decided: agreement of Add with AddStd as values (time.Time arithmetic) and wrap detection for inputs outside the valid ranges.",
 		Engines:      E{lib.RunTimepb},
 		RulePrefixes: []string{"TIME"},
 		Floors: []core.Floor{
@@ -87,6 +87,7 @@ func init() {
 			{Rule: "TIME.exact", Min: 3, Why: "returns of Add"},
 			{Rule: "TIME.fresh", Min: 3, Why: "returns of Add"},
 			{Rule: "TIME.ovf.call", Min: 3, Why: "returns of Add"},
+			{Rule: "TIME.std", Min: 4, Why: "returns of AddStd"},
 		},
 		Explanation: "Add: every path of the function is enumerated symbolically (result fields as linear terms of the inputs, interval of t.Nanos+d.Nanos refined by the branch conditions, inputs ranging over all valid timestamps/durations); each return is checked for exactness (t+d with carry k), normalisation (Nanos interval inside [0,1e9)), freshness and a dominating overflowPanic call with the right arguments. Compare/DurationIsNegative/overflowPanic: finite abstraction — their arguments are touched only through comparisons (checked), so evaluating the body on one representative per ordering is exhaustive. Not decided: agreement with AddStd (time.Time arithmetic), detection of 64-bit wrap for inputs outside the valid ranges.",
 	})
